@@ -19,7 +19,8 @@ func C01(c *core.Ctx) {
 	c.Rule("N recorded concurrent histories (8-12 clients, 16-32 hostile keys, RO/RW/long-lived snapshot transactions; Get and iterators with " +
 		"prefix/seek/reverse/SinceTs/prefetch variants) per option variant, with tiny memtables, 3 background compactors, a value-log GC loop and " +
 		"seeded delays at commit/flush/compaction/GC schedule points; every read is compared offline with Visible(key, readTs) of the MVCC model " +
-		"built from marker-resolved commit timestamps; distinct = (option variant, iterator shape or get) x (result class) seen with at least one checked read")
+		"built from marker-resolved commit timestamps; plus two deterministic GC/flush interleavings (GC write-back of an older version while the newest version " +
+		"awaits its held flush; delete + compaction between GC scan and write-back); distinct = (option variant, iterator shape or get) x (result class) seen with at least one checked read")
 	work := c.WorkDir()
 	defer os.RemoveAll(work)
 	variants := []int{0, 1, 2, 3, 4, 5, 6, 7, 8, 9}
@@ -73,6 +74,17 @@ func C01(c *core.Ctx) {
 			}
 			_ = res.DB.Close()
 			_ = os.RemoveAll(res.Dir)
+		}
+	}
+	// deterministic GC / flush interleavings (shared with C15): a GC write-back of an older version
+	// while the newest one awaits its flush, and a delete between GC scan and write-back
+	r := c.Rand("c01-scenarios")
+	for i := 0; i < c.Pick(1, 4); i++ {
+		if scenarioGCWhileFlushPending(c, "C01", work, i, r) {
+			c.Eval(1)
+		}
+		if scenarioDeleteDuringRewrite(c, "C01", work, i, r) {
+			c.Eval(1)
 		}
 	}
 	for _, need := range []string{"reads.gets_found", "reads.iterator_items", "readts_grants_while_commit_in_flight", "ev.memtable.rotate", "ev.compact.shape"} {
